@@ -497,7 +497,7 @@ static void add_tactile(mjSpec* s, uint64_t seed) {
     for (int b = 0; b < nb; b++) {
       mjsBody* B = mjs_addBody(world, NULL);
       snprintf(nm, sizeof(nm), "tB%d_%d", u, b); mjs_setName(B->element, nm);
-      B->pos[0] = A->pos[0] + mjg_range(&R, -0.05, 0.05); B->pos[1] = mjg_range(&R, -0.05, 0.05) + (b ? 0.12 : 0);
+      B->pos[0] = A->pos[0] + mjg_range(&R, -0.03, 0.03); B->pos[1] = mjg_range(&R, -0.03, 0.03) + (b ? 0.12 : 0);   // b == 0 presses on the pole = last taxel
       B->pos[2] = 0.5 + (b ? -0.1 : 0.15);
       mjsGeom* gb = mjs_addGeom(B, NULL); gb->type = b ? mjGEOM_BOX : mjGEOM_SPHERE;
       gb->size[0] = 0.08; gb->size[1] = 0.05; gb->size[2] = 0.04;
@@ -519,6 +519,33 @@ static mjModel* build(const Case& c, mjSpec** sp) {
   s->memory = 8 << 20;
   mjModel* m = mj_compile(s, NULL);
   if (!m) { printf("NOCOMPILE %s\n", mjs_getError(s)); mj_deleteSpec(s); return NULL; }
+  if (c.feat & C02_TACTILE) {
+    // second pass: the compiler re-centres and re-orients the pad mesh, so the taxel positions (mesh_vert, in the frame
+    // of the sensor geom) are only known now.  Press the sphere of every unit on the LAST taxel and the box on the FIRST.
+    int mid = mj_name2id(m, mjOBJ_MESH, "tpad");
+    if (mid >= 0) {
+      const float* vv = m->mesh_vert + 3 * m->mesh_vertadr[mid];
+      int n = m->mesh_vertnum[mid];
+      for (int u = 0; u < 8; u++) {
+        char nm[32];
+        snprintf(nm, sizeof(nm), "tA%d", u);
+        mjsBody* A = mjs_findBody(s, nm);
+        if (!A) break;
+        for (int b = 0; b < 2; b++) {
+          snprintf(nm, sizeof(nm), "tB%d_%d", u, b);
+          mjsBody* B = mjs_findBody(s, nm);
+          if (!B) continue;
+          const float* p = b ? vv : vv + 3 * (n - 1);
+          double len = sqrt((double)p[0] * p[0] + (double)p[1] * p[1] + (double)p[2] * p[2]);
+          double k = 1 + (b ? 0.03 : 0.05) / (len > 1e-6 ? len : 1);
+          for (int i = 0; i < 3; i++) B->pos[i] = A->pos[i] + k * p[i];
+        }
+      }
+      mj_deleteModel(m);
+      m = mj_compile(s, NULL);
+      if (!m) { printf("NOCOMPILE %s\n", mjs_getError(s)); mj_deleteSpec(s); return NULL; }
+    }
+  }
   m->opt.solver = c.solver;
   m->opt.cone = c.cone;
   m->opt.jacobian = c.jac;
